@@ -67,7 +67,7 @@ thread_local! {
     static STR_CONSTS: std::cell::RefCell<std::collections::BTreeMap<String, String>> = Default::default();
 }
 
-fn collect_str_consts(f: &syn::File) {
+pub(crate) fn collect_str_consts(f: &syn::File) {
     struct C(std::collections::BTreeMap<String, String>);
     impl<'ast> syn::visit::Visit<'ast> for C {
         fn visit_item_const(&mut self, c: &'ast syn::ItemConst) {
@@ -96,13 +96,19 @@ fn const_str(e: &syn::Expr) -> Option<String> {
 /// `Cow::Owned(E)`, `Cow::Borrowed(E)`, `Cow::from(E)`, `From::from(E)`, `Into::into(E)` → E;  an identity `.map(..)`
 /// (`.map(Cow::Owned)`, `.map(Into::into)`, `.map(|x| <peels to x>)`) and trailing `.iter()`, `.into_iter()`, `.cloned()`,
 /// `.copied()` are dropped as well (they change how a sequence is traversed, not its elements or their order).
-fn peel(e: &syn::Expr) -> syn::Expr {
+pub(crate) fn peel(e: &syn::Expr) -> syn::Expr {
     const NULLARY: &[&str] = &["as_str", "as_ref", "to_owned", "to_string", "into", "clone", "borrow", "deref", "iter", "into_iter", "cloned", "copied"];
     let e = strip_ref(e);
     match e {
         syn::Expr::MethodCall(m) if m.args.is_empty() && NULLARY.contains(&m.method.to_string().as_str()) => peel(&m.receiver),
         syn::Expr::MethodCall(m) if m.method == "map" && m.args.len() == 1 && identity_fn(&m.args[0]) => peel(&m.receiver),
         syn::Expr::Call(c) if c.args.len() == 1 && conv_path(&c.func) => peel(&c.args[0]),
+        // `Some(E)`: the conversion inside is dropped, the option stays
+        syn::Expr::Call(c) if c.args.len() == 1 && last_segment(&c.func).as_deref() == Some("Some") => {
+            let mut c2 = c.clone();
+            c2.args[0] = peel(&c.args[0]);
+            syn::Expr::Call(c2)
+        }
         syn::Expr::Tuple(t) => {
             let mut t2 = t.clone();
             for el in t2.elems.iter_mut() {
@@ -494,7 +500,7 @@ fn url_fn(func: &syn::ImplItemFn) -> R<UrlFn> {
 
 /// `"lit"`, `"lit".into()`, `"lit".to_string()`, `"lit".to_owned()`, `String::from("lit")`, `Cow::Borrowed("lit")`,
 /// `Cow::from("lit")` → the literal (conversions between string types change types, not text)
-fn lit_conv(e: &syn::Expr) -> Option<String> {
+pub(crate) fn lit_conv(e: &syn::Expr) -> Option<String> {
     let e = strip_ref(e);
     if let Some(l) = str_lit(e).or_else(|| const_str(e)) {
         return Some(l);
@@ -514,7 +520,7 @@ fn lit_conv(e: &syn::Expr) -> Option<String> {
 }
 
 /// canonical text of an effect's right-hand side: a (converted) string literal is written as the bare literal
-fn rhs(env: &Env, e: &syn::Expr) -> String {
+pub(crate) fn rhs(env: &Env, e: &syn::Expr) -> String {
     let r = env.resolve(e);
     match lit_conv(&r) {
         Some(l) => format!("{l:?}"),
@@ -523,7 +529,7 @@ fn rhs(env: &Env, e: &syn::Expr) -> String {
 }
 
 /// parameters are written `p0`, `p1`, .. in the generated expressions
-fn rename_params(env: &mut Env, sig: &syn::Signature) -> usize {
+pub(crate) fn rename_params(env: &mut Env, sig: &syn::Signature) -> usize {
     let ps = param_names(sig);
     for (i, p) in ps.iter().enumerate() {
         env.rename(p, &format!("p{i}"));
@@ -544,7 +550,7 @@ struct Setter {
 }
 
 /// `self.F`
-fn self_field(e: &syn::Expr) -> Option<String> {
+pub(crate) fn self_field(e: &syn::Expr) -> Option<String> {
     if let syn::Expr::Field(f) = strip(e) {
         if ident_of(&f.base).as_deref() == Some("self") {
             if let syn::Member::Named(n) = &f.member {
@@ -609,7 +615,7 @@ fn setter(func: &syn::ImplItemFn) -> R<Setter> {
     Ok(Setter { name, arity, effects })
 }
 
-fn takes_self_by_value(sig: &syn::Signature) -> bool {
+pub(crate) fn takes_self_by_value(sig: &syn::Signature) -> bool {
     matches!(sig.inputs.first(), Some(syn::FnArg::Receiver(r)) if r.reference.is_none())
 }
 
